@@ -224,6 +224,20 @@ def send_obligations(ex, R):
         req_ok = all(r in tracked_ids for r in cfg['required'])
         O('C03.gate/C05.no_gate: do_send == (every required output tracked) and (every NON-ephemeral client has requested)',
           zb(mid['do_send']) == z3.And(z3.BoolVal(req_ok), gate))
+    if R['r1'] is True and cfg['kind'] == 'request' and w in mid['clients'] and cfg['balance']:
+        cl = mid['clients']
+        tracked_ids = {c.client_id for c in list(cl.values()) + [c for k, c in pre.items() if k not in cl]}
+        req_ok = z3.BoolVal(all(r in tracked_ids for r in cfg['required']))
+        by_pull = {}
+        for c in cl.values():
+            by_pull.setdefault(id(c.pull), []).append(c)
+        ready_sync = [z3.And(*[z3.Or(nz(c.requested), nz(c.ephemeral)) for c in cs], z3.Or(*[z3.And(z3.Not(nz(c.ephemeral)), nz(c.requested)) for c in cs])) for cs in by_pull.values()]
+        safe = [z3.And(*[z3.Or(nz(c.requested), nz(c.ephemeral)) for c in cs]) for cs in by_pull.values()]
+        O('C05.no_gate(balanced): an output all of whose synchronized consumers have asked (at least one of them) is ready whatever its ephemeral listeners did',
+          z3.Implies(z3.And(req_ok, z3.Or(*ready_sync)), zb(mid['do_send'])))
+        O('C04.one_publish_per_request(balanced): the gate opens only if on some output every synchronized consumer has asked',
+          z3.Implies(zb(mid['do_send']), z3.And(req_ok, z3.Or(*safe))))
+        ex.cover('balanced gate checked')
     # ---- send_maybe
     logs = [p.f['log'] for p in R['pubs']]
     data = [[m for m in lg if isinstance(m[0], Obj) and m[0].cls == 'wiretopic' and len(m) > 2] for lg in logs]
